@@ -1,11 +1,17 @@
 """E4 helpers: parent maps, the fate of a value (result discipline), dominating guards."""
 from .ir import callee, children, peel, walk
 
-ERR_TYPES = ("std::io::error::Error", "savefile::SavefileError", "ring::error::Unspecified")
+def is_err_type(e):
+    e = e.strip()
+    return e in ("std::io::error::Error", "savefile::SavefileError") or (e.startswith("ring::error::") and e.endswith("Unspecified"))
 
 
 def is_err_result(t):
-    return isinstance(t, str) and t.startswith("core::result::Result<") and any(t[:-1].endswith(e) for e in ERR_TYPES)
+    if not (isinstance(t, str) and t.startswith("core::result::Result<") and t.endswith(">")):
+        return False
+    from .tys import split_top
+    parts = split_top(t[len("core::result::Result<"):-1])
+    return len(parts) == 2 and is_err_type(parts[1])
 
 
 def parent_map(body):
